@@ -785,7 +785,11 @@ impl TransformerContext {
         #[cfg(feature = "verif-hooks")]
         crate::verif::sched_point("update_element");
         if let Some(id) = el.get_attr("id") {
-            let id = eval_attr(&id, self).unwrap_or(id);
+            // (evaluated once: here, unless it has been already)
+            let id = match el.evaluated || el.id_evaluated {
+                true => id,
+                false => eval_attr(&id, self).unwrap_or(id),
+            };
             if self.elem_map.insert(id.clone(), el.clone()).is_none() {
                 self.original_map.insert(id, el.clone());
             }
@@ -797,11 +801,18 @@ impl TransformerContext {
     pub fn register_pending(&mut self, el: &mut SvgElement) -> Option<String> {
         let id = el.get_attr("id")?;
         self.registered_count += 1;
-        let id = eval_attr(&id, self).unwrap_or(id);
         // The element keeps the evaluated id, so that an expression in it is
         // evaluated once rather than again with the element's other attributes.
-        el.set_attr("id", &id);
-        el.id_evaluated = true;
+        // (An id which cannot be evaluated stays as written: the error is reported
+        // with the other attributes.)
+        let id = match eval_attr(&id, self) {
+            Ok(evaluated) => {
+                el.set_attr("id", &evaluated);
+                el.id_evaluated = true;
+                evaluated
+            }
+            Err(_) => id,
+        };
         self.update_element(el);
         self.pending_ids.insert(id.clone());
         Some(id)
